@@ -166,7 +166,11 @@ def run(chk, replay=None):
         tour2, gen["tour_two_replies_sasl"] = vf.tlc_gen("ServerGen.tla", "ServerGenTour2.cfg")
         tourf, gen["tour_every_from_class_x_identity_state"] = vf.tlc_gen("ServerGen.tla", "ServerGenTourF.cfg")
         tourc, gen["tour_every_credential_class_x_exchange_state"] = vf.tlc_gen("ServerGen.tla", "ServerGenTourC.cfg")
-        behs = _probed(tour1 + tour2 + tourf + tourc)
+        # several attempts on one stream, SASL elements in any order (generator models tolerate MaxRetry = 2
+        # refusals; the harness ends an execution where the real server closes the stream)
+        tourr, gen["tour_retries"] = vf.tlc_gen("ServerGen.tla", "ServerGenTourRetry.cfg" if quick else "ServerGenTourRetryW.cfg")
+        allr, gen["all_sasl_sequences_retries"] = vf.tlc_gen("ServerGen.tla", "ServerGenAllRetry.cfg" if quick else "ServerGenAllRetry7.cfg")
+        behs = _probed(tour1 + tour2 + tourf + tourc + tourr) + [dict(b, steps=b["steps"] + PROBE) for b in allr]
         if quick:
             sim, gen["random_walks_full_alphabet"] = vf.tlc_simulate("ServerGen.tla", "ServerGenSim.cfg", num=1500, depth=12, seed=chk.seed)
             behs += sim
@@ -175,7 +179,10 @@ def run(chk, replay=None):
             t4, gen["tour_reauth"] = vf.tlc_gen("ServerGen.tla", "ServerGenTourR.cfg")
             allp, gen["all_paths_depth5"] = vf.tlc_gen("ServerGen.tla", "ServerGenAll5.cfg")
             sim, gen["random_walks_full_alphabet"] = vf.tlc_simulate("ServerGen.tla", "ServerGenSim.cfg", num=40000, depth=14, seed=chk.seed)
-            behs += _probed(t3 + t4) + allp + sim
+            ar2, gen["all_sasl_sequences_retries_sasl2"] = vf.tlc_gen("ServerGen.tla", "ServerGenAllRetryS2.cfg")
+            arp, gen["all_sasl_sequences_retries_plain_digest"] = vf.tlc_gen("ServerGen.tla", "ServerGenAllRetryP.cfg")
+            chk.mc(vf.tlc_mc("Server.tla", "ServerRetry.cfg", workers=4), "ServerRetry.cfg")
+            behs += _probed(t3 + t4) + allp + sim + [dict(b, steps=b["steps"] + PROBE) for b in ar2 + arp]
         behs = vf.maximal_behaviours(behs)
         chk.cov["generation"] = gen
     vf.write_ndjson(chk.path("behaviours.ndjson"), behs)
